@@ -35,6 +35,42 @@ def child_names(fn):
     return None
 
 
+def _memo_hit(path, params):
+    """Did the path find its node in a table that is a parameter
+    (`k in memo` taken, or `memo.get(k)` that is not None)?"""
+    got = set()
+    for it in path:
+        if it[0] == 'stmt' and isinstance(it[1], ast.Assign) and len(
+                it[1].targets) == 1 and isinstance(
+                    it[1].targets[0], ast.Name):
+            v = it[1].value
+            nm = it[1].targets[0].id
+            got.discard(nm)
+            if isinstance(v, ast.Call) and au.call_name(v) == 'get' and \
+                    isinstance(v.func, ast.Attribute) and isinstance(
+                        v.func.value, ast.Name) and \
+                    v.func.value.id in params:
+                got.add(nm)
+        if it[0] != 'test':
+            continue
+        t, taken = it[1], it[2]
+        if isinstance(t, ast.UnaryOp) and isinstance(t.op, ast.Not):
+            t, taken = t.operand, not taken
+        if not (isinstance(t, ast.Compare) and len(t.ops) == 1):
+            continue
+        op, right = t.ops[0], t.comparators[0]
+        if isinstance(op, (ast.In, ast.NotIn)) and isinstance(
+                right, ast.Name) and right.id in params:
+            if taken == isinstance(op, ast.In):
+                return True
+        if isinstance(op, (ast.Is, ast.IsNot)) and isinstance(
+                t.left, ast.Name) and t.left.id in got and isinstance(
+                    right, ast.Constant) and right.value is None:
+            if taken == isinstance(op, ast.IsNot):
+                return True
+    return False
+
+
 def r_visit(P, R):
     n = 0
     for q in VISITORS.get(R.prop, []):
@@ -72,6 +108,10 @@ def r_visit(P, R):
                 # a search (is_essential) or a memoised count may stop
                 # early; a collector may not: whatever it has not looked
                 # at is missing from the collection
+                continue
+            if not collector and _memo_hit(path, set(f.params)):
+                # the result of this node was found in the memo handed
+                # down: the successors were visited when it was stored
                 continue
             visited = set()
             for it in path:
